@@ -82,7 +82,8 @@ def representation_error(mesh, refine, order, segmentwise=False):
     if segmentwise:
         di = np.array([1 + (c[2] > np.median(grid.centroids[:, 2])) for c in grid.centroids], dtype="uint32")
         grid = SG.make_grid(grid.vertices, grid.elements, di)
-    par = Z.params(order, order)
+    # potentials must depend on the REGULAR order only: the singular order is kept small and fixed
+    par = Z.params(order, 2)
     h = grid.maximum_element_diameter
     cen = grid.vertices.mean(axis=1)
     inside = np.array([cen + d for d in ([0, 0, 0], [0.08, 0.03, -0.05], [-0.06, 0.05, 0.04])]).T
@@ -170,7 +171,7 @@ def main():
     run.add("PotentialAssembler.evaluate::complex-split", "bounded", ob_complex_split)
     run.add("representation.octa(refined 2)", "bounded", ob_representation, "octa", 2)
     if thorough:
-        run.add("representation.cube12(refined 2)", "bounded", ob_representation, "cube12", 2)
+        run.add("representation.cube12(refined 3)", "bounded", ob_representation, "cube12", 3)
         run.add("representation.octa(refined 2, segment-wise pieces)", "bounded", ob_representation, "octa", 2, True)
         run.add("representation.octa(refined 3)", "bounded", ob_representation, "octa", 3)
     run.bound("potential contract: meshes with <= 8 elements, 2 quadrature points, 2 evaluation points, generic values")
